@@ -1,7 +1,13 @@
 import TypifyModel.Proofs.C04
+import TypifyModel.Proofs.Tagging
 #print axioms TypifyModel.C04.wire_exchange
 #print axioms TypifyModel.C04.wire_exchange_de
 #print axioms TypifyModel.C04.wire_exchange_B
 #print axioms TypifyModel.WireEq.acc_sound
 #print axioms TypifyModel.WireEq.de_ty
 #print axioms TypifyModel.WireEq.dflt_ty
+#print axioms TypifyModel.Tagging.intTag_sound
+#print axioms TypifyModel.Tagging.tagged_branches_exclusive
+#print axioms TypifyModel.Tagging.external_names_nodup
+#print axioms TypifyModel.Tagging.adjacent_sound
+#print axioms TypifyModel.Tagging.internal_panics_only_on_assert
